@@ -71,6 +71,15 @@ def affine_in_draws(name, value, mean, cov):
     return Clause(name, "affine", jnp.concatenate([v, m, jnp.ravel(c)]), lhs=int(v.size))
 
 
+def expectation_over_probes(name, value, target):
+    """Exact expectation of ``value`` over independent Rademacher probes (symbols v with v^2 = 1,
+    E[v] = 0): every monomial that still contains a probe symbol has zero mean; what remains must
+    equal ``target``.  This equals the average over the full enumeration of all sign assignments."""
+    v, t = jnp.ravel(jnp.asarray(value)), jnp.ravel(jnp.asarray(target))
+    assert v.shape == t.shape, (v.shape, t.shape)
+    return Clause(name, "expect", jnp.concatenate([v, t]), lhs=int(v.size))
+
+
 def define(name, out_leaf, expr):
     """Equality ``out_leaf == expr`` where ``out_leaf`` is literally a leaf of the result.
 
@@ -595,7 +604,7 @@ def _verify(contract, inst, res, seed, tier):
             which = None
             if c.kind == "indep":
                 which = [j for j, x in enumerate(ins) if any(x is l for l in c.lhs)]
-            if c.kind == "affine":
+            if c.kind in ("affine", "expect"):
                 which = c.lhs
             metas.append((c.name, c.kind, which))
         return [(jnp.asarray(c.lhs) - c.value) if c.kind == "def" else c.value for c in cl], metas
@@ -605,6 +614,14 @@ def _verify(contract, inst, res, seed, tier):
     for (nm, kind, which), val in zip(meta, vals):
         if kind == "affine":
             _emit_affine(ctx, f"ensures.{nm}", val, which)
+            continue
+        if kind == "expect":
+            packed = val if interp.is_obj(val) else interp.to_obj(val)
+            probes = {sid for sid, info in enumerate(P.SYMS) if info["kind"] == "rademacher"}
+            for i in range(which):
+                p = packed[i].p
+                mean = P.Poly({m: c for m, c in p.t.items() if not any(s in probes for s, _ in m)})
+                ctx.oblige_eq(f"ensures.{nm}[{i}]", V(mean) - packed[which + i])
             continue
         if kind == "indep":
             forbidden = set()
@@ -997,8 +1014,8 @@ def _smt_entail(goal: B, ob, eq_assm, bool_assm, res, want_model=True, timeout=N
     em = smt.Emitter()
     asserts = []
     for a in eq_assm:
-        if a["fact"].p.is_zero():
-            continue
+        if a["fact"].p.is_zero() or a.get("origin") == "atom":
+            continue  # atom definitions are emitted (guarded by the divisor being non-zero) by the Emitter
         t = em.need_v(a["fact"])
         cond = _path_term(em, a["path"])
         asserts.append(f"(assert (=> {cond} (= {t} 0.0))) ; {a['name']}" if cond else f"(assert (= {t} 0.0)) ; {a['name']}")
